@@ -17,7 +17,12 @@ RULE = (
     "insert; each request presents the jar's cookie, an older cookie emitted earlier in the history (replay), "
     "or none; some requests only read everything back; every history ends with a request that reads all keys "
     "on both sides (1/3 of them first replay the previous cookie twice). TTL 1 h or 4 h per request (so the "
-    "update_ttl arm is reachable with threshold 0.5), cookie domain/path drawn at random. After every operation "
+    "update_ttl arm is reachable with threshold 0.5), cookie domain/path drawn at random. One history in five "
+    "with >= 2 requests additionally carries an environment fault: in a later request the store record of the "
+    "id the request came with vanishes (raw store delete behind the monitor = TTL expiry / concurrent delete) "
+    "after the server state was loaded (unchanged or changed), and the same request calls cycle_id() before or "
+    "after the fault; the next request must then find exactly the in-memory state under the new id. "
+    "After every operation "
     "the return value is compared with the model; whatever a later request reads is compared with what the "
     "model says the earlier request ended with. A history is non-trivial when at least one request presented a "
     "cookie emitted earlier in that history; distinct = distinct (configuration, sequence over the requests of "
@@ -48,6 +53,10 @@ ASSUMPTIONS = [
     "real store; it never answers on its own",
     "the TTLs used (1 h, 4 h) never expire during a run; SQLite shards use a scratch database file under "
     "build/sessions-sqlite (journal in memory, synchronous=OFF); plumbing errors of that database are inconclusive",
+    "environment fault 'record vanishes': only judged where the outcome is pinned (state already loaded as a "
+    "record, no manual sync in the request, not invalidated/deleted, cycle_id() called in the same request); in "
+    "every other situation the fault is not performed or the history is abandoned unjudged (vanish_faults: "
+    "unjudged/...); divergences traced to such a request get cause record_vanished_before_cycle_id/<state kind>",
     "signatures: `cause` names the first model-level change of the persistence epoch (request / stretch between "
     "explicit syncs) in which the diverging key was last changed, and the abstract state it was applied in; "
     "histories where `sync()` was called by hand on a new or on a renamed session are classed by `ctx` instead",
@@ -73,4 +82,7 @@ def run(ctx):
     cov["exhaustive"] = {"session_state_configurations": bool(cov.get("configs_exhaustive")),
                          "count": cov.get("configs_covered")}
     cov["operations_executed"] = cov.get("ops", 0)
+    cov["environment_fault_histories"] = {"performed": cov.get("fault_histories", 0),
+                                          "judged": cov.get("fault_histories_judged", 0),
+                                          "read_back_requests": cov.get("requests_presenting_cookie_of_a_fault_request", 0)}
     ctx.finish(cov, ASSUMPTIONS, require_nontrivial=not ctx.replay)
